@@ -34,6 +34,8 @@ pub fn doc(req: &Value) -> Value {
         "Platform" => p!(libcnb_data::package_descriptor::Platform),
         "Launch" => p!(libcnb_data::launch::Launch),
         "Label" => p!(libcnb_data::launch::Label),
+        "Process" => p!(libcnb_data::launch::Process),
+        "Slice" => p!(libcnb_data::launch::Slice),
         s => json!({"error": format!("unknown struct {s}")}),
     }
 }
